@@ -268,6 +268,14 @@ def index_validation(cx):
     cx.claim_true("jac w.r.t. a non-differentiable tensor is rejected", raises(lambda: jac(_f, (x, A, s), idxs=1)))
     cx.claim_true("jac w.r.t. a non-tensor is rejected", raises(lambda: jac(lambda x_, k: x_ * k, (x, 2.0), idxs=[1])))
     cx.claim_true("hess w.r.t. a non-differentiable tensor is rejected", raises(lambda: hess(_phi, (x, A, s), idxs=[0, 1])))
+    # index 0 / empty selections (falsy values must not be taken for "no selection")
+    cx.claim_true("jac w.r.t. a non-differentiable FIRST argument (idxs=0) is rejected",
+                  raises(lambda: jac(lambda A_, x_, s_: _f(x_, A_, s_), (A, x, s), idxs=0)))
+    cx.claim_true("jac w.r.t. a non-tensor first argument (idxs=0) is rejected", raises(lambda: jac(lambda k, x_: x_ * k, (2.0, x), idxs=0)))
+    cx.claim_true("hess w.r.t. a non-differentiable first argument (idxs=0) is rejected",
+                  raises(lambda: hess(lambda A_, x_, s_: _phi(x_, A_, s_), (A, x, s), idxs=0)))
+    empty = jac(_f, (x, A, s), idxs=[])
+    cx.claim_true("an empty selection gives no operator", isinstance(empty, (list, tuple)) and len(empty) == 0, detail=str(empty))
     ops = jac(_f, (x, A, s))
     cx.claim_true("idxs=None selects exactly the differentiable tensors", len(ops) == 2)
     J0 = _dense_jac(_f(x, A, s), x)
